@@ -306,7 +306,7 @@ pub fn run(ctx: &Ctx) -> Report {
                     let persistent = matches!(w, W::Persist(..));
                     let (name, base) = &corp_ref[ci];
                     let mut case = base.clone();
-                    case.fault = Fault { eof_after: None, err_at: Some(k), persistent, err_kind: (k % 3) as u8 };
+                    case.fault = Fault { eof_after: None, err_at: Some(k), persistent, err_kind: [0u8, 1, 2, 101, 102][(k % 5) as usize] };
                     let obs = run_case(&case);
                     rep.evaluations += 1;
                     let what = if persistent { "persistent" } else { "one-off" };
@@ -367,7 +367,7 @@ pub fn run(ctx: &Ctx) -> Report {
             let obs0 = run_case(&case);
             let n = obs0.world.nops.max(1);
             let persistent = rng.bool();
-            case.fault = Fault { eof_after: None, err_at: Some(rng.below(n)), persistent, err_kind: rng.below(3) as u8 };
+            case.fault = Fault { eof_after: None, err_at: Some(rng.below(n)), persistent, err_kind: [0u8, 1, 2, 101, 102][rng.usize(5)] };
             if rng.chance(1, 4) {
                 case.write_limit = *rng.pick(&[1usize, 9, 100]);
             }
